@@ -11,6 +11,9 @@ answers:
   read: allow | deny | err:invalid-bid | err:other | PANIC   + " attr=<n|->"
   list: absent | title | masked | err:invalid-bid | PANIC    + " attr=<n|->"
   xread <entry> <bid> <namebid> ...: the entry point gets the number of board <bid> and the name of board <namebid>
+  xreadb: the same while Shm.BBusyState is raised
+  nlist <fn> <bid> <ulevel> <over18> <uid> <bmcache> <friend> <idhex> <bmhex>: a list op whose named-moderator fact is
+        is_uBM of the raw bytes (≤13 / ≤39)
 The first command-line argument selects the layer (ptt | bbs).
 -/
 namespace C07Drv
@@ -83,7 +86,7 @@ def constsLine : String :=
   " ".intercalate (kv.map fun (k, v) => s!"{k}={v}") ++ s!" REALDESC={USE_REAL_DESC_FOR_HIDDEN_BOARD_IN_MYFAV}"
 
 /-- `nameBid`: the board whose NAME the entry point receives (= bid except for xread) -/
-def doCall (bbs : Bool) (st : St) (kind entry : String) (bid nameBid : Int) (u : UserView) (r : Relation) : St × String :=
+def doCall (bbs : Bool) (st : St) (kind entry : String) (bid nameBid : Int) (u : UserView) (r : Relation) (busy : Bool := false) : St × String :=
   let valid := bidValid bid
   match (if !valid then some default else getBoard st bid) with
   | none => (st, "bad-op")
@@ -93,10 +96,10 @@ def doCall (bbs : Bool) (st : St) (kind entry : String) (bid nameBid : Int) (u :
       let o :=
         if bbs && entry = "FindArticleStartIdx" then
           -- bbs.LoadGeneralArticles with a cursor: ptt.FindArticleStartIdx, then ptt.LoadGeneralArticles
-          (match bbsRead (nameBid = bid) "FindArticleStartIdx" env with
+          (match bbsRead busy (nameBid = bid) "FindArticleStartIdx" env with
            | .allow => runEntry "LoadGeneralArticles" env
            | x => x)
-        else if bbs then bbsRead (nameBid = bid) entry env
+        else if bbs then bbsRead busy (nameBid = bid) entry env
         else runEntry entry env
       (st, showRead o ++ " attr=" ++ (if valid then toString b.attr.toNat else "-"))
     else
@@ -124,8 +127,20 @@ def step (bbs : Bool) (st : St) (ws : List String) : St × String :=
           else if bbs && uid ≠ 2 then (st, "bad-op")
           else doCall bbs st kind entry bid bid { level := w ulevel, over18 := over18, uid := uid } { bmUid := bmc, friend := friend, namedBM := named }
        | _, _, _, _, _, _, _ => (st, "bad-op"))
-  | ["xread", entry, bid, nameBid, ulevel, over18, uid, bmc, friend, named] =>
-      if !readNames.contains entry then (st, "bad-op") else
+  | [xk, entry, bid, nameBid, ulevel, over18, uid, bmc, friend, named] =>
+      if xk = "nlist" then
+        -- nlist <fn> <bid> <ulevel> <over18> <uid> <bmcache> <friend> <idhex> <bmhex>: the named-moderator fact is computed
+        -- by is_uBM from the raw user-id and moderator-string bytes (ptt layer only)
+        let (fn, bid, ulevel, over18, uid, bmc, friend, idhex, bmhex) := (entry, bid, nameBid, ulevel, over18, uid, bmc, friend, named)
+        if bbs || !listNames.contains fn then (st, "bad-op") else
+        (match parseI32 bid, parseU32 ulevel, parseBool over18, parseI32 uid, parseBool bmc, parseBool friend, parseHex idhex, parseHex bmhex with
+         | some bid, some ulevel, some over18, some uid, some bmc, some friend, some idb, some bmb =>
+            if idb.length > 13 || bmb.length > 39 then (st, "bad-op")
+            else if friend && uid ≠ 2 then (st, "bad-op")
+            else doCall bbs st "list" fn bid bid { level := w ulevel, over18 := over18, uid := uid }
+                   { bmUid := bmc, friend := friend, namedBM := isUBM idb bmb }
+         | _, _, _, _, _, _, _, _ => (st, "bad-op"))
+      else if !(xk = "xread" || xk = "xreadb") || !readNames.contains entry then (st, "bad-op") else
       (match parseI32 bid, parseI32 nameBid, parseU32 ulevel, parseBool over18, parseI32 uid, parseBool bmc, parseBool friend, parseBool named with
        | some bid, some nameBid, some ulevel, some over18, some uid, some bmc, some friend, some named =>
           if !(nameBid = 2 ∨ nameBid = 3 ∨ nameBid = 4) || !(bid = 2 ∨ bid = 3 ∨ bid = 4) then (st, "bad-op")
@@ -135,7 +150,8 @@ def step (bbs : Bool) (st : St) (ws : List String) : St × String :=
           else
             -- board 3 is the fixture's public control board: attr 0, level 0, present in every history
             let st' := if bid = 3 then setBoard st 3 default else st
-            let (_, o) := doCall bbs st' "read" entry bid nameBid { level := w ulevel, over18 := over18, uid := uid } { bmUid := bmc, friend := friend, namedBM := named }
+            let (_, o) := doCall bbs st' "read" entry bid nameBid { level := w ulevel, over18 := over18, uid := uid }
+                            { bmUid := bmc, friend := friend, namedBM := named } (xk = "xreadb")
             (st, o)
        | _, _, _, _, _, _, _, _ => (st, "bad-op"))
   | _ => (st, "bad-op")
